@@ -1,0 +1,713 @@
+//! Verification hooks.
+//!
+//! This module only exists with `--cfg divan_verif`. It exposes thin,
+//! plain-data wrappers around crate-private items so that an external harness
+//! can drive the real implementation without touching private types. Nothing in
+//! here is used by Divan itself.
+
+#![allow(missing_docs, clippy::all)]
+
+use std::{
+    borrow::Cow, cmp::Ordering, io::Write, num::NonZeroU64, num::NonZeroUsize,
+    time::Duration,
+};
+
+use crate::{
+    alloc::{AllocOp, ThreadAllocInfo},
+    benchmark::{BenchContext, BenchOptions},
+    config::{
+        filter::{Filter, FilterSet},
+        Action, SortingAttr,
+    },
+    counter::{AnyCounter, BytesFormat, CounterSet, KnownCounterKind},
+    divan::SharedContext,
+    entry::{AnyBenchEntry, BenchEntry, EntryTree, GroupEntry},
+    stats::{Stats, StatsSet, TimeSample},
+    time::{FineDuration, Timer, TscTimestamp},
+    util::thread::ThreadPool,
+    Bencher,
+};
+
+// ---------------------------------------------------------------------------
+// Thread pool
+// ---------------------------------------------------------------------------
+
+pub struct Pool(ThreadPool);
+
+impl Pool {
+    pub const fn new() -> Self {
+        Self(ThreadPool::new())
+    }
+
+    pub fn broadcast<F>(&self, aux_threads: usize, task: F)
+    where
+        F: Sync + Fn(usize),
+    {
+        self.0.broadcast(aux_threads, task)
+    }
+
+    pub fn par_extend<T, F>(
+        &self,
+        vec: &mut Vec<Option<T>>,
+        aux_threads: usize,
+        task: F,
+    ) where
+        F: Sync + Fn(usize) -> T,
+        T: Sync + Send,
+    {
+        self.0.par_extend(vec, aux_threads, task)
+    }
+
+    pub fn aux_thread_count(&self) -> usize {
+        self.0.verif_aux_thread_count()
+    }
+}
+
+// ---------------------------------------------------------------------------
+// Sample loop
+// ---------------------------------------------------------------------------
+
+#[derive(Clone, Debug, Default)]
+pub struct RunCfg {
+    /// `true`: `--test` mode, `false`: benchmark mode.
+    pub test: bool,
+    pub threads: usize,
+    pub sample_count: Option<u32>,
+    pub sample_size: Option<u32>,
+    pub min_time: Option<Duration>,
+    pub max_time: Option<Duration>,
+    pub skip_ext_time: Option<bool>,
+    /// Inherited counters by kind index (Bytes, Chars, Cycles, Items).
+    pub counters: [Option<u64>; 4],
+    /// Frequency of the (virtual) timestamp counter.
+    pub frequency: u64,
+}
+
+/// Plain-data mirror of `ThreadAllocInfo`.
+#[derive(Clone, Copy, Debug, Default, PartialEq, Eq, Hash)]
+pub struct TallyMirror {
+    /// (count, size) indexed by Grow, Shrink, Alloc, Dealloc.
+    pub tallies: [(u64, u64); 4],
+    pub current_count: i64,
+    pub max_count: i64,
+    pub current_size: i64,
+    pub max_size: i64,
+}
+
+impl TallyMirror {
+    fn of(info: &ThreadAllocInfo) -> Self {
+        Self {
+            tallies: AllocOp::ALL.map(|op| {
+                let t = info.tallies.get(op);
+                (t.count as u64, t.size as u64)
+            }),
+            current_count: info.current_count as i64,
+            max_count: info.max_count as i64,
+            current_size: info.current_size as i64,
+            max_size: info.max_size as i64,
+        }
+    }
+
+    fn write_to(&self, info: &mut ThreadAllocInfo) {
+        for (i, op) in AllocOp::ALL.into_iter().enumerate() {
+            let t = info.tallies.get_mut(op);
+            t.count = self.tallies[i].0 as _;
+            t.size = self.tallies[i].1 as _;
+        }
+        info.current_count = self.current_count as _;
+        info.max_count = self.max_count as _;
+        info.current_size = self.current_size as _;
+        info.max_size = self.max_size as _;
+    }
+}
+
+/// Plain-data mirror of `Stats`. Arrays of four are fastest, slowest, median,
+/// mean.
+#[derive(Clone, Debug, PartialEq)]
+pub struct StatsMirror {
+    pub sample_count: u32,
+    pub iter_count: u64,
+    pub time: [u128; 4],
+    pub max_alloc_count: [f64; 4],
+    pub max_alloc_size: [f64; 4],
+    /// Indexed by Grow, Shrink, Alloc, Dealloc; each (count[4], size[4]).
+    pub alloc_tallies: [([f64; 4], [f64; 4]); 4],
+    /// Indexed by Bytes, Chars, Cycles, Items.
+    pub counts: [Option<[u64; 4]>; 4],
+}
+
+fn set4<T: Copy>(s: &StatsSet<T>) -> [T; 4] {
+    [s.fastest, s.slowest, s.median, s.mean]
+}
+
+impl StatsMirror {
+    fn of(stats: &Stats) -> Self {
+        Self {
+            sample_count: stats.sample_count,
+            iter_count: stats.iter_count,
+            time: set4(&stats.time).map(|d| d.picos),
+            max_alloc_count: set4(&stats.max_alloc.count),
+            max_alloc_size: set4(&stats.max_alloc.size),
+            alloc_tallies: AllocOp::ALL.map(|op| {
+                let t = stats.alloc_tallies.get(op);
+                (set4(&t.count), set4(&t.size))
+            }),
+            counts: KnownCounterKind::ALL.map(|kind| {
+                stats.get_counts(kind).map(|s| set4(s).map(|c| c as u64))
+            }),
+        }
+    }
+}
+
+#[derive(Clone, Debug)]
+pub struct RunReport {
+    pub did_run: bool,
+    pub thread_count: usize,
+    pub sample_size: u32,
+    /// Recorded sample durations in picoseconds, in recording order.
+    pub durations: Vec<u128>,
+    pub time_samples_capacity: usize,
+    /// Per recorded sample: the stored allocation tally, if any.
+    pub tallies: Vec<Option<TallyMirror>>,
+    /// Per counter kind: the raw counts vector and whether it is per-input.
+    pub counts: [Vec<u64>; 4],
+    pub uses_input_counts: [bool; 4],
+    /// `compute_stats()` under `catch_unwind`: the statistics or the panic text.
+    pub stats: Result<StatsMirror, String>,
+    /// Number of pool threads that existed when the run ended.
+    pub pool_threads: usize,
+}
+
+fn panic_text(payload: Box<dyn std::any::Any + Send>) -> String {
+    if let Some(s) = payload.downcast_ref::<&str>() {
+        (*s).to_owned()
+    } else if let Some(s) = payload.downcast_ref::<String>() {
+        s.clone()
+    } else {
+        "<non-string panic payload>".to_owned()
+    }
+}
+
+fn make_options(cfg: &RunCfg) -> BenchOptions<'static> {
+    let mut counters = CounterSet::default();
+    for (i, kind) in KnownCounterKind::ALL.into_iter().enumerate() {
+        if let Some(count) = cfg.counters[i] {
+            insert_known(&mut counters, kind, count);
+        }
+    }
+    BenchOptions {
+        sample_count: cfg.sample_count,
+        sample_size: cfg.sample_size,
+        threads: None,
+        counters,
+        min_time: cfg.min_time,
+        max_time: cfg.max_time,
+        skip_ext_time: cfg.skip_ext_time,
+        ignore: None,
+    }
+}
+
+fn insert_known(set: &mut CounterSet, kind: KnownCounterKind, count: u64) {
+    use crate::counter::{BytesCount, CharsCount, CyclesCount, ItemsCount};
+    match kind {
+        KnownCounterKind::Bytes => set.insert(BytesCount::new(count)),
+        KnownCounterKind::Chars => set.insert(CharsCount::new(count)),
+        KnownCounterKind::Cycles => set.insert(CyclesCount::new(count)),
+        KnownCounterKind::Items => set.insert(ItemsCount::new(count)),
+    };
+}
+
+fn report(ctx: &mut BenchContext, pool: &ThreadPool) -> RunReport {
+    let did_run = ctx.did_run;
+    let thread_count = ctx.thread_count.get();
+    let stats = std::panic::catch_unwind(std::panic::AssertUnwindSafe(|| {
+        StatsMirror::of(&ctx.compute_stats())
+    }))
+    .map_err(panic_text);
+
+    let (samples, counters) = ctx.verif_parts();
+    let durations: Vec<u128> =
+        samples.time_samples.iter().map(|s| s.duration.picos).collect();
+    let tallies = (0..durations.len())
+        .map(|i| {
+            samples.alloc_info_by_sample.get(&(i as u32)).map(TallyMirror::of)
+        })
+        .collect();
+
+    RunReport {
+        did_run,
+        thread_count,
+        sample_size: samples.sample_size,
+        time_samples_capacity: samples.time_samples.capacity(),
+        durations,
+        tallies,
+        counts: KnownCounterKind::ALL
+            .map(|kind| counters.counts(kind).iter().map(|&c| c as u64).collect()),
+        uses_input_counts: KnownCounterKind::ALL
+            .map(|kind| counters.uses_input_counts(kind)),
+        stats,
+        pool_threads: pool.verif_aux_thread_count(),
+    }
+}
+
+/// Runs `f` with a real `Bencher` under the given configuration and returns
+/// what was recorded. Panics raised by `f` (or by the benchmarked function)
+/// propagate to the caller after the pool has been shut down.
+pub fn run_bencher(
+    cfg: &RunCfg,
+    f: &dyn for<'a, 'b> Fn(Bencher<'a, 'b>),
+) -> RunReport {
+    let shared = SharedContext {
+        action: if cfg.test { Action::Test } else { Action::Bench },
+        timer: Timer::Tsc {
+            frequency: NonZeroU64::new(cfg.frequency).expect("frequency"),
+        },
+        thread_pool: ThreadPool::new(),
+    };
+    let options = make_options(cfg);
+    let mut ctx = BenchContext::new(
+        &shared,
+        &options,
+        NonZeroUsize::new(cfg.threads).expect("threads"),
+    );
+    f(Bencher::new(&mut ctx));
+    report(&mut ctx, &shared.thread_pool)
+}
+
+/// One injected sample for `stats_of`.
+#[derive(Clone, Debug, Default)]
+pub struct InjectedSample {
+    pub duration: u128,
+    pub tally: Option<TallyMirror>,
+}
+
+/// Per counter kind: nothing, a constant, or one value per sample.
+#[derive(Clone, Debug, Default)]
+pub enum InjectedCounter {
+    #[default]
+    None,
+    Constant(u64),
+    PerSample(Vec<u64>),
+}
+
+/// Injects the given samples into a fresh context and computes statistics with
+/// the real `compute_stats`.
+pub fn stats_of(
+    sample_size: u32,
+    samples: &[InjectedSample],
+    counters: &[InjectedCounter; 4],
+) -> Result<StatsMirror, String> {
+    let shared = SharedContext {
+        action: Action::Bench,
+        timer: Timer::Os,
+        thread_pool: ThreadPool::new(),
+    };
+    let options = BenchOptions::default();
+    let mut ctx = BenchContext::new(&shared, &options, NonZeroUsize::MIN);
+    ctx.did_run = true;
+    {
+        let (collection, counter_collection) = ctx.verif_parts();
+        collection.sample_size = sample_size;
+        // Exact capacity so that index lookups by address see a tight slice.
+        collection.time_samples.reserve_exact(samples.len());
+        for (i, s) in samples.iter().enumerate() {
+            collection.time_samples.push(TimeSample {
+                duration: FineDuration { picos: s.duration },
+            });
+            if let Some(tally) = &s.tally {
+                let mut info = ThreadAllocInfo::new();
+                tally.write_to(&mut info);
+                collection.alloc_info_by_sample.insert(i as u32, info);
+            }
+        }
+        for (i, kind) in KnownCounterKind::ALL.into_iter().enumerate() {
+            match &counters[i] {
+                InjectedCounter::None => {}
+                InjectedCounter::Constant(c) => counter_collection
+                    .set_counter(AnyCounter::known(kind, *c as _)),
+                InjectedCounter::PerSample(values) => {
+                    set_unit_input_counter(counter_collection, kind);
+                    for v in values {
+                        counter_collection
+                            .push_counter(AnyCounter::known(kind, *v as _));
+                    }
+                }
+            }
+        }
+    }
+    std::panic::catch_unwind(std::panic::AssertUnwindSafe(|| {
+        StatsMirror::of(&ctx.compute_stats())
+    }))
+    .map_err(panic_text)
+}
+
+fn set_unit_input_counter(
+    c: &mut crate::counter::CounterCollection,
+    kind: KnownCounterKind,
+) {
+    use crate::counter::{BytesCount, CharsCount, CyclesCount, ItemsCount};
+    match kind {
+        KnownCounterKind::Bytes => {
+            c.set_input_counter(|_: &()| BytesCount::new(0u64))
+        }
+        KnownCounterKind::Chars => {
+            c.set_input_counter(|_: &()| CharsCount::new(0u64))
+        }
+        KnownCounterKind::Cycles => {
+            c.set_input_counter(|_: &()| CyclesCount::new(0u64))
+        }
+        KnownCounterKind::Items => {
+            c.set_input_counter(|_: &()| ItemsCount::new(0u64))
+        }
+    }
+}
+
+// ---------------------------------------------------------------------------
+// Allocation tally of the current thread
+// ---------------------------------------------------------------------------
+
+pub fn tally_get() -> Option<TallyMirror> {
+    ThreadAllocInfo::current()
+        .map(|info| TallyMirror::of(unsafe { info.as_ref() }))
+}
+
+pub fn tally_try_get() -> Option<TallyMirror> {
+    ThreadAllocInfo::try_current()
+        .map(|info| TallyMirror::of(unsafe { info.as_ref() }))
+}
+
+pub fn tally_set(tally: &TallyMirror) -> bool {
+    match ThreadAllocInfo::current() {
+        Some(mut info) => {
+            tally.write_to(unsafe { info.as_mut() });
+            true
+        }
+        None => false,
+    }
+}
+
+pub fn tally_clear() -> bool {
+    match ThreadAllocInfo::current() {
+        Some(mut info) => {
+            unsafe { info.as_mut() }.clear();
+            true
+        }
+        None => false,
+    }
+}
+
+// ---------------------------------------------------------------------------
+// Time
+// ---------------------------------------------------------------------------
+
+pub fn tsc_duration_since(later: u64, earlier: u64, frequency: u64) -> u128 {
+    TscTimestamp { value: later }
+        .duration_since(
+            TscTimestamp { value: earlier },
+            NonZeroU64::new(frequency).expect("frequency"),
+        )
+        .picos
+}
+
+pub fn duration_to_picos(duration: Duration) -> u128 {
+    FineDuration::from(duration).picos
+}
+
+/// Runs the real precision measurement of the TSC timer (the virtual clock is
+/// expected to be on).
+pub fn measure_precision(frequency: u64) -> u128 {
+    Timer::Tsc { frequency: NonZeroU64::new(frequency).expect("frequency") }
+        .verif_measure_precision()
+        .picos
+}
+
+// ---------------------------------------------------------------------------
+// Formatting
+// ---------------------------------------------------------------------------
+
+pub fn fmt_duration(picos: u128) -> String {
+    FineDuration { picos }.to_string()
+}
+
+pub fn fmt_duration_width(picos: u128, width: usize) -> String {
+    format!("{:<width$}", FineDuration { picos })
+}
+
+fn kind_of(index: usize) -> KnownCounterKind {
+    KnownCounterKind::ALL[index]
+}
+
+fn bytes_format_of(binary: bool) -> BytesFormat {
+    if binary {
+        BytesFormat::Binary
+    } else {
+        BytesFormat::Decimal
+    }
+}
+
+pub fn fmt_throughput(
+    kind: usize,
+    count: u64,
+    picos: u128,
+    binary: bool,
+) -> String {
+    AnyCounter::known(kind_of(kind), count as _)
+        .display_throughput(FineDuration { picos }, bytes_format_of(binary))
+        .to_string()
+}
+
+pub fn fmt_bytes(value: f64, binary: bool) -> String {
+    crate::util::fmt::format_bytes(value, 4, bytes_format_of(binary))
+}
+
+pub fn fmt_f64(value: f64, sig_figs: usize) -> String {
+    crate::util::fmt::format_f64(value, sig_figs)
+}
+
+// ---------------------------------------------------------------------------
+// Ordering
+// ---------------------------------------------------------------------------
+
+pub fn natural_cmp(a: &str, b: &str) -> Ordering {
+    crate::util::sort::natural_cmp(a, b)
+}
+
+fn sorting_attr(index: u8) -> SortingAttr {
+    match index {
+        0 => SortingAttr::Kind,
+        1 => SortingAttr::Name,
+        _ => SortingAttr::Location,
+    }
+}
+
+/// Compares `names[i]` with `names[j]` the way runtime arguments are sorted.
+/// `attr`: 0 kind, 1 name, 2 location.
+pub fn cmp_arg_names(attr: u8, names: &[&str], i: usize, j: usize) -> Ordering {
+    sorting_attr(attr).cmp_bench_arg_names(&names[i], &names[j])
+}
+
+// ---------------------------------------------------------------------------
+// Filters
+// ---------------------------------------------------------------------------
+
+#[derive(Default)]
+pub struct Filters(FilterSet);
+
+impl Filters {
+    pub fn new() -> Self {
+        Self::default()
+    }
+
+    /// `exact`: whole-string filter, otherwise a regular expression.
+    pub fn include(&mut self, pattern: &str, exact: bool) {
+        self.0.include(make_filter(pattern, exact));
+    }
+
+    pub fn exclude(&mut self, pattern: &str, exact: bool) {
+        self.0.exclude(make_filter(pattern, exact));
+    }
+
+    pub fn reserve_exact(&mut self, additional: usize) {
+        self.0.reserve_exact(additional);
+    }
+
+    pub fn is_match(&self, path: &str) -> bool {
+        self.0.is_match(path)
+    }
+}
+
+fn make_filter(pattern: &str, exact: bool) -> Filter {
+    if exact {
+        Filter::Exact(pattern.to_owned())
+    } else {
+        Filter::Regex(regex::Regex::new(pattern).expect("regex"))
+    }
+}
+
+// ---------------------------------------------------------------------------
+// Entry tree
+// ---------------------------------------------------------------------------
+
+#[derive(Clone, Debug, PartialEq, Eq)]
+pub struct NodeMirror {
+    pub is_leaf: bool,
+    pub display_name: String,
+    pub raw_name: String,
+    /// Address identifying the entry (leaf) or group (parent), if any.
+    pub entry_addr: Option<usize>,
+    /// Retained runtime arguments as (label, index in the original list).
+    pub args: Option<Vec<(String, usize)>>,
+    pub children: Vec<NodeMirror>,
+}
+
+fn mirror(tree: &[EntryTree]) -> Vec<NodeMirror> {
+    tree.iter()
+        .map(|node| match node {
+            EntryTree::Leaf { entry, args } => NodeMirror {
+                is_leaf: true,
+                display_name: node.display_name().to_owned(),
+                raw_name: node.raw_name().to_owned(),
+                entry_addr: node.entry_addr().map(|p| p.as_ptr() as usize),
+                args: args.as_ref().map(|args| {
+                    let orig = entry.arg_names().unwrap_or_default();
+                    args.iter()
+                        .map(|&name| {
+                            (
+                                (*name).to_owned(),
+                                crate::util::slice_ptr_index(orig, name),
+                            )
+                        })
+                        .collect()
+                }),
+                children: Vec::new(),
+            },
+            EntryTree::Parent { children, .. } => NodeMirror {
+                is_leaf: false,
+                display_name: node.display_name().to_owned(),
+                raw_name: node.raw_name().to_owned(),
+                entry_addr: node.entry_addr().map(|p| p.as_ptr() as usize),
+                args: None,
+                children: mirror(children),
+            },
+        })
+        .collect()
+}
+
+/// Builds the entry tree exactly as `Divan::run_action` does (benches, then the
+/// generic benches of every group, then groups), optionally filters and sorts
+/// it, and returns a plain-data mirror.
+///
+/// `sort`: (attribute 0 kind / 1 name / 2 location, reverse).
+pub fn tree(
+    benches: &[&'static BenchEntry],
+    groups: &[&'static GroupEntry],
+    filters: Option<&Filters>,
+    sort: Option<(u8, bool)>,
+) -> Vec<NodeMirror> {
+    let generic = groups.iter().flat_map(|group| {
+        group.generic_benches_iter().map(AnyBenchEntry::GenericBench)
+    });
+    let entries =
+        benches.iter().map(|b| AnyBenchEntry::Bench(*b)).chain(generic);
+
+    let mut tree = EntryTree::from_benches(entries);
+    for group in groups {
+        EntryTree::insert_group(&mut tree, group);
+    }
+    if let Some(filters) = filters {
+        EntryTree::retain(&mut tree, |path| filters.is_match(path));
+    }
+    if let Some((attr, reverse)) = sort {
+        EntryTree::sort_by_attr(&mut tree, sorting_attr(attr), reverse);
+    }
+    mirror(&tree)
+}
+
+// ---------------------------------------------------------------------------
+// Options
+// ---------------------------------------------------------------------------
+
+/// `a.overwrite(b)`: values set in `a` win over those of `b`.
+pub fn options_overwrite(
+    a: &BenchOptions<'static>,
+    b: &BenchOptions<'static>,
+) -> BenchOptions<'static> {
+    let merged = a.overwrite(b);
+    BenchOptions {
+        sample_count: merged.sample_count,
+        sample_size: merged.sample_size,
+        threads: merged.threads.map(|t| Cow::Owned(t.into_owned())),
+        counters: merged.counters.clone(),
+        min_time: merged.min_time,
+        max_time: merged.max_time,
+        skip_ext_time: merged.skip_ext_time,
+        ignore: merged.ignore,
+    }
+}
+
+pub fn counter_set_get(set: &CounterSet, kind: usize) -> Option<u64> {
+    set.get(kind_of(kind)).map(|c| c as u64)
+}
+
+pub fn counter_set_insert(set: &mut CounterSet, kind: usize, count: u64) {
+    insert_known(set, kind_of(kind), count);
+}
+
+/// The thread counts a benchmark with these `threads` option values runs with,
+/// computed by the same normalisation `run_bench_entry` applies.
+pub fn known_parallelism() -> usize {
+    crate::util::known_parallelism().get()
+}
+
+// ---------------------------------------------------------------------------
+// Statistics tap (called from `Divan::run_bench_entry`)
+// ---------------------------------------------------------------------------
+
+/// Appends one line per printed statistics block to the file named by
+/// `DIVAN_VERIF_STATS`: the raw values and, per column, the strings the real
+/// formatters produce for them.
+pub(crate) fn tap_stats(stats: &Stats, bytes_format: BytesFormat) {
+    let Some(path) = std::env::var_os("DIVAN_VERIF_STATS") else {
+        return;
+    };
+    let m = StatsMirror::of(stats);
+    let binary = bytes_format == BytesFormat::Binary;
+
+    let mut line = String::new();
+    let q = |s: &str| format!("\"{}\"", s.replace('\\', "\\\\").replace('"', "\\\""));
+    let arr = |v: Vec<String>| format!("[{}]", v.join(","));
+
+    line.push_str(&format!(
+        "{{\"sample_count\":{},\"iter_count\":{},",
+        m.sample_count, m.iter_count
+    ));
+    line.push_str(&format!(
+        "\"time\":{},",
+        arr(m.time.iter().map(|t| t.to_string()).collect())
+    ));
+    line.push_str(&format!(
+        "\"time_fmt\":{},",
+        arr(m.time.iter().map(|&t| q(&fmt_duration(t))).collect())
+    ));
+    let mut counters = Vec::new();
+    for (i, c) in m.counts.iter().enumerate() {
+        match c {
+            None => counters.push("null".to_owned()),
+            Some(values) => counters.push(format!(
+                "{{\"raw\":{},\"fmt\":{}}}",
+                arr(values.iter().map(|v| v.to_string()).collect()),
+                arr((0..4)
+                    .map(|k| q(&fmt_throughput(i, values[k], m.time[k], binary)))
+                    .collect())
+            )),
+        }
+    }
+    line.push_str(&format!("\"counters\":{},", arr(counters)));
+    let f64s = |v: &[f64; 4]| {
+        arr(v.iter().map(|x| format!("{:?}", x.to_bits())).collect())
+    };
+    line.push_str(&format!(
+        "\"max_alloc\":{{\"count_bits\":{},\"size_bits\":{},\"count_fmt\":{},\"size_fmt\":{}}},",
+        f64s(&m.max_alloc_count),
+        f64s(&m.max_alloc_size),
+        arr(m.max_alloc_count.iter().map(|&x| q(&fmt_f64(x, 4))).collect()),
+        arr(m.max_alloc_size.iter().map(|&x| q(&fmt_bytes(x, binary))).collect()),
+    ));
+    let mut ops = Vec::new();
+    for (count, size) in m.alloc_tallies.iter() {
+        ops.push(format!(
+            "{{\"count_bits\":{},\"size_bits\":{},\"count_fmt\":{},\"size_fmt\":{}}}",
+            f64s(count),
+            f64s(size),
+            arr(count.iter().map(|&x| q(&fmt_f64(x, 4))).collect()),
+            arr(size.iter().map(|&x| q(&fmt_bytes(x, binary))).collect()),
+        ));
+    }
+    line.push_str(&format!("\"alloc_ops\":{}}}\n", arr(ops)));
+
+    if let Ok(mut file) =
+        std::fs::OpenOptions::new().create(true).append(true).open(path)
+    {
+        let _ = file.write_all(line.as_bytes());
+    }
+}
